@@ -106,6 +106,11 @@ def join(a, b):
             return b.w(maybe_empty=True, const=None, litconst=None)
         if fb.get('elts') == [] and fa.get('elts') != [] and not fb.get('kw'):
             return a.w(maybe_empty=True, const=None, litconst=None)
+    if fa.get('ty') == fb.get('ty') == 'set':
+        if fa.get('empty_init') and not fb.get('empty_init'):
+            return b.w(maybe_empty=True)
+        if fb.get('empty_init') and not fa.get('empty_init'):
+            return a.w(maybe_empty=True)
     out = {}
     for k in set(fa) | set(fb):
         va, vb = fa.get(k), fb.get(k)
